@@ -82,6 +82,25 @@ def ex(abbr, cfg):
         return 'EXC:%s:%s' % (type(e).__name__, str(e)[:80])
 
 
+def calls_with_arguments(alts):
+    out = []
+    for alt in alts:
+        m = re.match(r'^([A-Za-z]+)\([^()]+\)$', alt.strip())
+        if m and m.group(1) not in out:
+            out.append(m.group(1))
+    return out
+
+
+def second_line_is(expected, cls):
+    def pred(out):
+        if out.startswith('EXC:'):
+            return ('exception:' + out.split(':')[1], dict(output=out))
+        lines = out.split('\n')
+        if len(lines) != 2 or lines[1] != expected:
+            return (cls, dict(expected_second_line=expected, actual=out))
+    return pred
+
+
 def empty_calls(alts):
     "alternatives listed as a function call without arguments, e.g. minmax(): typed by their name, written with the parentheses"
     out = []
@@ -132,6 +151,11 @@ def probes(syn, key, val):
             want = c[1] + between + w + after
             for form in (key + ':' + w, key + '-' + w, key + ':' + w.upper(), key + ':' + w.capitalize(), key + '-' + w.upper()):
                 yield 'keyword', form, {}, eq(want, 'keyword-not-resolved')
+        for fn in calls_with_arguments(c[2]):
+            # a listed function typed with an argument of its own, then again bare in the same abbreviation: the listed form is
+            # what the bare one resolves to (nothing of the first use sticks to the snippet)
+            alone = run_probe(syn, key + ':' + fn, {})
+            yield 'keyword-call-twice', key + ':' + fn + '(7)+' + key + ':' + fn, {}, second_line_is(alone, 'keyword-arguments-stick-to-the-snippet')
         for w in empty_calls(c[2]):
             for form in (key + ':' + w, key + '-' + w, key + ':' + w.upper()):
                 yield 'keyword-call', form, {}, eq(c[1] + between + w + '()' + after, 'keyword-not-resolved')
@@ -148,6 +172,9 @@ def probes(syn, key, val):
         yield 'new-key-property-scope', 'zzq', {'snippets': {'zzq': body, key: val}, 'context': {'name': '@@property'}}, eq(prop + between + first + after, 'scope:property-prop-unreachable')
     # a raw body with two-digit tabstop numbers, rendered by the default field callback (tabstops become their placeholders)
     yield 'new-key-raw-default-field', 'zzr', {'snippets': {'zzr': 'a ${9:x} b ${10:y} c ${0} d ${12}|', key: val}, 'options': {}}, exact('a x b y c  d |', 'raw-body-tabstops-changed')
+    # a user-defined key with an underscore inside, typed exactly
+    yield 'new-key-snake', 'zz_q', {'snippets': {'zz_q': 'foo-prop:bar|baz', key: val}}, eq('foo-prop' + between + 'bar' + after, 'new-key-unreachable')
+    yield 'new-key-snake-raw', '@zz_q', {'snippets': {'@zz_q': 'raw ${1:body} text', key: val}}, eq('raw body text', 'new-key-unreachable')
     # a user-defined key with upper-case letters, typed exactly
     yield 'new-key-camel', 'zzQx', {'snippets': {'zzQx': 'foo-prop:bar|baz', key: val}}, eq('foo-prop' + between + 'bar' + after, 'new-key-unreachable')
     yield 'new-key-camel-keyword', 'zzQx:baz', {'snippets': {'zzQx': 'foo-prop:bar|baz', key: val}}, eq('foo-prop' + between + 'baz' + after, 'new-key-keyword-not-resolved')
